@@ -21,8 +21,17 @@ impl embedded_io::Error for SinkErr {
             ErrorKind::InvalidInput,
             ErrorKind::NotConnected,
         ];
-        KINDS[self.0 % KINDS.len()]
+        KINDS[(self.0 + KIND_SHIFT.with(|c| c.get())) % KINDS.len()]
     }
+}
+
+thread_local! {
+    static KIND_SHIFT: std::cell::Cell<usize> = const { std::cell::Cell::new(0) };
+}
+
+/// rotate which kind goes with which call index (the fault-enumeration workloads set it per scenario)
+pub fn set_kind_shift(n: usize) {
+    KIND_SHIFT.with(|c| c.set(n));
 }
 
 /// upper bound on what one session may write (the longest sessions of any workload stay below 1 MiB)
